@@ -27,7 +27,7 @@ import (
 func init() { Registry["C10"] = Check{Level: "model_checking", Fn: runC10} }
 
 var c10ColCons = []string{"PRIMARY KEY", "PRIMARY KEY ASC", "PRIMARY KEY DESC", "PRIMARY KEY AUTOINCREMENT", "UNIQUE", "NOT NULL", "NULL",
-	"COLLATE NOCASE", "COLLATE RTRIM", "DEFAULT 1", "DEFAULT 'x'", "DEFAULT NULL", "CHECK (1 > 0)", "REFERENCES o (x)"}
+	"COLLATE NOCASE", "COLLATE RTRIM", "COLLATE BINARY", "DEFAULT 1", "DEFAULT 'x'", "DEFAULT NULL", "CHECK (1 > 0)", "REFERENCES o (x)"}
 
 var c10Types = []string{"", "INTEGER", "integer", "INT", "TEXT", "INTEGER(5)"}
 
@@ -87,7 +87,7 @@ func c10Generate(thorough bool) []c10Case {
 	// F2: two / three columns from a reduced alphabet x table constraints
 	red := []string{"", "TEXT COLLATE NOCASE", "INTEGER PRIMARY KEY", "PRIMARY KEY", "UNIQUE", "COLLATE RTRIM UNIQUE", "TEXT PRIMARY KEY DESC", "NOT NULL DEFAULT 'x'", "INT UNIQUE COLLATE NOCASE", "REFERENCES o (x) DEFERRABLE"}
 	tcs := []string{"PRIMARY KEY (a)", "PRIMARY KEY (b)", "PRIMARY KEY (a DESC)", "PRIMARY KEY (b, a)", "PRIMARY KEY (a, b DESC)", "PRIMARY KEY (a COLLATE NOCASE)", "PRIMARY KEY (a, a)", "PRIMARY KEY (b COLLATE RTRIM DESC, a)",
-		"UNIQUE (a)", "UNIQUE (b)", "UNIQUE (a DESC)", "UNIQUE (a, b)", "UNIQUE (b, a)", "UNIQUE (a COLLATE NOCASE)", "UNIQUE (A)", "UNIQUE (b COLLATE RTRIM, a DESC)", "CONSTRAINT cn UNIQUE (a)", "CONSTRAINT cn PRIMARY KEY (a)",
+		"UNIQUE (a)", "UNIQUE (b)", "UNIQUE (a DESC)", "UNIQUE (a, b)", "UNIQUE (b, a)", "UNIQUE (a COLLATE NOCASE)", "UNIQUE (a COLLATE BINARY)", "UNIQUE (A)", "UNIQUE (b COLLATE RTRIM, a DESC)", "CONSTRAINT cn UNIQUE (a)", "CONSTRAINT cn PRIMARY KEY (a)",
 		"FOREIGN KEY (a) REFERENCES o (x)", "UNIQUE (a) ON CONFLICT REPLACE"}
 	tcLists := [][]string{{}}
 	for _, t := range tcs {
@@ -317,7 +317,7 @@ func c10Little(s *sdb.Schema) *c10View {
 }
 
 func runC10(r *ev.Run) {
-	r.Rule = "grammar-directed enumeration of CREATE TABLE statements (1-3 columns; types {none, INTEGER, integer, INT, TEXT, INTEGER(5)}; every ordered list of <=2 (3 thorough) column constraints from 14; 0-2 table constraints from 20 incl. duplicate/overlapping/re-ordered/collated/DESC ones and CONSTRAINT names; WITHOUT ROWID; 6 identifier spellings) and CREATE INDEX statements (UNIQUE, column permutations, per-column COLLATE/DESC, partial, expression columns, one or two indexes) on 5 base tables; only statements real SQLite accepts are judged; oracle: PRAGMA table_xinfo/index_list/index_xinfo + a behavioural rowid-alias probe + reading the probe row back. A definition sqlittle rejects is fine; an explicit index it leaves out is fine; every index it reports must match SQLite's index of that name; every automatic index must be reported. non-trivial = statements with at least one index or a primary key"
+	r.Rule = "grammar-directed enumeration of CREATE TABLE statements (1-3 columns; types {none, INTEGER, integer, INT, TEXT, INTEGER(5)}; every ordered list of <=2 (3 thorough) column constraints from 15; 0-2 table constraints from 20 incl. duplicate/overlapping/re-ordered/collated/DESC ones and CONSTRAINT names; WITHOUT ROWID; 6 identifier spellings) and CREATE INDEX statements (UNIQUE, column permutations, per-column COLLATE/DESC, partial, expression columns, one or two indexes) on 5 base tables; only statements real SQLite accepts are judged; oracle: PRAGMA table_xinfo/index_list/index_xinfo + a behavioural rowid-alias probe + reading the probe row back. A definition sqlittle rejects is fine; an explicit index it leaves out is fine; every index it reports must match SQLite's index of that name; every automatic index must be reported. non-trivial = statements with at least one index or a primary key"
 	cases := c10Generate(r.Thorough())
 	r.Set("generated_statements", len(cases))
 	// one SQLite connection per worker, reused (the table is dropped between cases)
